@@ -454,6 +454,9 @@ func report(cr *checkResult, id, tier string, seed int, outDir string, writeBase
 	}
 	// known findings that no longer fail are reported (not an error)
 	for name, kf := range known {
+		if strings.HasPrefix(name, "bounded:") {
+			continue // findings of bounded stand-ins are reported further down
+		}
 		still := false
 		for _, o := range failed {
 			if o.Name == name {
